@@ -49,7 +49,7 @@ func (ds *describer) d(v ssa.Value, depth int) string {
 		if x.Parent().Signature.Recv() != nil && len(x.Parent().Params) > 0 && x.Parent().Params[0] == x {
 			return "recv"
 		}
-		if x.Parent().Parent() != nil {
+		if bindableParam(x) {
 			// closure parameter: describe the (unique) bound argument
 			if a := closureArg(x); a != nil {
 				return ds.d(a, depth+1)
@@ -252,7 +252,7 @@ func indexClass(v ssa.Value) string {
 	if loopIdx(v) != nil {
 		return "peer"
 	}
-	if p, ok := v.(*ssa.Parameter); ok && p.Parent().Parent() != nil {
+	if p, ok := v.(*ssa.Parameter); ok && bindableParam(p) {
 		if a := closureArg(p); a != nil {
 			return indexClass(a)
 		}
